@@ -1502,12 +1502,56 @@ pub fn gen_plan(focus: &str, seed: u64, thorough: bool, pool: &[Pos]) -> EngineP
     let mut cycles = Vec::new();
     let mut cur = CurPos::startpos();
     let mut have_best = false;
+    // the legal part of the last rejected `position ... moves` list (same game, same FEN text)
+    let mut rejected_prefix: Option<CurPos> = None;
     for ci in 0..n_cycles {
         let pos_draw = if focus == "C13" && !fault_free && rng.chance(1, 2) { 3 } else { rng.below(10) };
+        let resume = rejected_prefix.take().filter(|_| rng.chance(1, 2));
         let pos = match pos_draw {
+            _ if resume.is_some() => {
+                // the GUI corrects itself: the list that was rejected, without its bad move (and
+                // sometimes continued): it must be applied as a whole, whatever the engine kept of
+                // the rejected one
+                let mut g = resume.unwrap();
+                for _ in 0..rng.below(3) {
+                    let mut legal = g.root().legal_moves();
+                    if legal.is_empty() {
+                        break;
+                    }
+                    legal.sort_by_key(|m| m.uci());
+                    let m = *rng.pick(&legal);
+                    let mut moves = g.moves.clone();
+                    moves.push(m.uci());
+                    match CurPos::from_spec(&g.fen, &moves) {
+                        Some(n) => g = n,
+                        None => break,
+                    }
+                }
+                let spec = PosSpec::Set { fen: g.fen.clone(), moves: g.moves.clone() };
+                cur = g;
+                spec
+            }
             0 if ci > 0 => PosSpec::Keep,
             1 | 2 if have_best => PosSpec::Follow { reply: rng.below(64) as u32 },
-            3 if !fault_free => PosSpec::Broken { line: broken_position(&mut rng, &cur) },
+            3 if !fault_free => {
+                let line = broken_position(&mut rng, &cur);
+                // remember the longest legal prefix of a rejected move list of the current game
+                if let Some((head, list)) = line.split_once(" moves ") {
+                    let same_game = head == cur.render().split(" moves ").next().unwrap_or("");
+                    let toks: Vec<String> = list.split(' ').filter(|t| !t.is_empty()).map(str::to_string).collect();
+                    if same_game {
+                        let mut k = toks.len();
+                        while k > cur.moves.len() {
+                            if let Some(cp) = CurPos::from_spec(&cur.fen, &toks[..k].to_vec()) {
+                                rejected_prefix = Some(cp);
+                                break;
+                            }
+                            k -= 1;
+                        }
+                    }
+                }
+                PosSpec::Broken { line }
+            }
             _ => {
                 let max_len = if rng.chance(1, 3) { 40 } else { 10 };
                 let bias = rng.chance(1, 2);
